@@ -77,18 +77,30 @@ def r17_2(ctx):
     f = ctx.repo.mod("syntax").functions.get("Syntax.highlight.<locals>.tokens_to_spans")
     if f is None:
         raise AnchorVanished("Syntax.highlight.<locals>.tokens_to_spans not found")
-    loops = [x for x in walk_local(f.node) if isinstance(x, ast.While)]
-    ok = False
-    for lp in loops:
-        if "line_no <" in norm(lp.test):
-            ok = any(isinstance(y, ast.Yield) and isinstance(y.value, ast.Tuple) and norm(y.value.elts[0]) == "token" for b in lp.body for y in ast.walk(b))
+    # every token taken from the `tokens` iterator - by `.. , T = next(tokens)` in a while loop or by `for .., T in tokens`
+    # - is yielded exactly once, unconditionally, in the iteration that consumed it
+    sites = []
+    for lp in walk_local(f.node):
+        if isinstance(lp, ast.For) and norm(lp.iter) == "tokens" and isinstance(lp.target, ast.Tuple) and len(lp.target.elts) == 2:
+            sites.append((lp, norm(lp.target.elts[1])))
+        if isinstance(lp, ast.While):
+            for x in ast.walk(lp):
+                if isinstance(x, ast.Assign) and isinstance(x.targets[0], ast.Tuple) and len(x.targets[0].elts) == 2 and norm(x.value) == "next(tokens)":
+                    sites.append((lp, norm(x.targets[0].elts[1])))
+    ok = len(sites) >= 2
+    for lp, tv in sites:
+        top = [b for b in lp.body if isinstance(b, ast.Expr) and isinstance(b.value, ast.Yield) and isinstance(b.value.value, ast.Tuple) and norm(b.value.value.elts[0]) == tv]
+        allys = [y for b in lp.body for y in ast.walk(b) if isinstance(y, ast.Yield)]
+        if len(top) != 1 or len(allys) != 1:
+            ok = False
     ctx.check(ok, f.fq, "skip loop yields (token, None)", f.where, "tokens before the range are still appended (unstyled): Text line k stays source line k",
               "tokens before the requested range are no longer appended to the Text: the line slicing in __rich_console__ (lines[line_offset:end_line]) and the unknown-lexer fallback (whole code) then disagree about which source line is line k")
 
 
 def r17_3(ctx):
     ctx.rule("R17.3", "numbering agrees with slicing: the first displayed number is start_line + line_offset where line_offset is the very value that slices `lines`; line_offset = max(0, range_start - 1); the slice end is the range end; the gutter width derives from start_line + number of newlines")
-    f = ctx.repo.fn("syntax:Syntax.__rich_console__")
+    from .common import splice_generator_helpers
+    f = splice_generator_helpers(ctx.repo.fn("syntax:Syntax.__rich_console__"))
     m = f.module
     off_defs = [x for x in walk_local(f.node) if isinstance(x, ast.Assign) and norm(x.targets[0]) == "line_offset"]
     ok = any(norm(x.value) in ("max(0, start_line - 1)",) for x in off_defs) and any(norm(x.value) == "0" for x in off_defs)
@@ -114,7 +126,24 @@ def r17_3(ctx):
     ctx.check("highlight_line(line_no)" in norm(f.node) and "highlight_line = self.highlight_lines.__contains__" in norm(f.node), f.fq, "highlight_line(line_no)", f.where, "the failing-line marker is chosen by the displayed line number", "the highlight marker is not selected by the displayed line number")
     ctx.check("str(line_no).rjust(numbers_column_width - 2)" in norm(f.node), f.fq, "str(line_no)", f.where, "the gutter shows line_no", "the gutter does not show the enumerated line number")
     w = ctx.repo.cls("syntax:Syntax").method("_numbers_column_width")
-    ctx.check("len(str(self.start_line + self.code.count('\\n'))) + 2" in norm(w.node), w.fq, "gutter width", w.where, "gutter wide enough for the largest line number", "gutter width is no longer derived from start_line + number of newlines")
+    from ..yieldpaths import Unsupported, paths_of, resolve
+    try:
+        WP = [resolve(p_) for p_ in paths_of(w.node)]
+    except Unsupported as u:
+        raise AnalysisError(f"Syntax._numbers_column_width: statement outside the path normal form ({u})")
+    okw = bool(WP)
+    for p_ in WP:
+        rets = [e for e in p_ if e[0] == "return"]
+        facts = {e[1]: e[2] for e in p_ if e[0] == "cond"}
+        if len(rets) != 1:
+            okw = False
+        elif facts.get("self.line_numbers") is True:
+            okw = okw and rets[0][1] == "len(str(self.start_line + self.code.count('\\n'))) + 2"
+        elif facts.get("self.line_numbers") is False:
+            okw = okw and rets[0][1] == "0"
+        else:
+            okw = False
+    ctx.check(okw, w.fq, "gutter width", w.where, "gutter wide enough for the largest line number", "gutter width is no longer derived from start_line + number of newlines")
     # text -> lines: split on newline of the highlighted text, after removing one trailing newline
     src = norm(f.node)
     ctx.check("text = self.highlight(code, self.line_range)" in src and "lines = text.split('\\n')" in src, f.fq, "lines = text.split('\\n')", f.where, "display lines are the newline-split of the highlighted code", "display lines are not the newline split of the highlighted text")
@@ -166,8 +195,12 @@ def r17_5(ctx):
     if calls:
         c = calls[0]
         where = f"{m.relpath}:{c.lineno}"
+        from ..astutil import inline as _inl, single_defs as _sdf
+        _sd = {k: v for k, v in _sdf(f.node).items() if not isinstance(v, ast.Call)}  # temporaries (frame.lineno, bounds), not calls
         lr = kwarg(c, "line_range")
         hl = kwarg(c, "highlight_lines")
+        lr = _inl(lr, _sd) if lr is not None else None
+        hl = _inl(hl, _sd) if hl is not None else None
         ok = isinstance(lr, ast.Tuple) and len(lr.elts) == 2 and norm(lr.elts[0]) == "frame.lineno - self.extra_lines" and norm(lr.elts[1]) == "frame.lineno + self.extra_lines"
         ctx.check(ok, f.fq, f"line_range={norm(lr) if lr is not None else None}", where, "range centred on the frame's line", "line_range is not (frame.lineno - extra_lines, frame.lineno + extra_lines)")
         ok = isinstance(hl, ast.Set) and len(hl.elts) == 1 and norm(hl.elts[0]) == "frame.lineno"
@@ -180,7 +213,7 @@ def r17_5(ctx):
         code_arg = c.args[0] if c.args else kwarg(c, "code")
         okc = code_arg is not None and isinstance(code_arg, ast.Name)
         if okc:
-            okc = any(isinstance(x, ast.Assign) and norm(x.targets[0]) == code_arg.id and "read_code(frame.filename)" in norm(x.value) for x in walk_local(f.node))
+            okc = any(isinstance(x, ast.Assign) and norm(x.targets[0]) == code_arg.id and "read_code(frame.filename)" in norm(_inl(x.value, _sd)) for x in walk_local(f.node))
         ctx.check(okc, f.fq, "code = read_code(frame.filename)", where, "Syntax receives the text of the frame's own file", "the code given to Syntax is not read from frame.filename")
     memo_rule(ctx, "R17.6", ["traceback", "syntax"], 1)
 
